@@ -1,4 +1,5 @@
 import PlumpyModel.Futures.Proof
+import PlumpyModel.Futures.ProofMirror
 /-!
 # C20 — future adapters deliver result, error or cancellation exactly once
 -/
@@ -43,5 +44,73 @@ theorem C20_unwrap_innermost (n : Nat) (o : Outcome) (pre post : List Ev) (fuel 
     exact List.count_eq_zero.mpr h.unset
   · refine ⟨h.errs, h.fuel, fun _ => ⟨h.ust, h.uset⟩, fun ⟨i, hi, hp⟩ => ?_, hdone⟩
     exact absurd hp (by rw [h.all i hi]; exact chainD_ne_pending hi)
+
+theorem Outcome.toSt_ne_ref (o : Outcome) (g : FId) : o.toSt ≠ .result (.ref g) := by cases o <;> simp [Outcome.toSt]
+
+/-- **C20, `plum_to_kiwi_future`** -/
+theorem C20_mirror_faithful (n : Nat) (o : Outcome) (pre post : List Ev) (fuel : Nat) :
+    let d := chainD n o
+    let s1 := envRun d fuel (newFutures .aio (n + 1) {}) pre
+    let k := (plumToKiwi s1 0).2
+    let s3 := envRun d fuel (runStack fuel (plumToKiwi s1 0).1) post
+    s3.errs = [] ∧ s3.fuelOut = false ∧
+    (∃ m, m ≤ n ∧
+      (∀ i, i < m → s3.st i = .result (.ref (i + 1)) ∧ s3.st (k + i) = .result (.ref (k + i + 1)) ∧
+        s3.sets.count (k + i) = 1) ∧
+      ((s3.st (k + m) = .pending ∧ s3.sets.count (k + m) = 0 ∧ (s3.st m = .pending ∨ s3.ready ≠ [])) ∨
+       (m = n ∧ s3.st n = o.toSt ∧ s3.st (k + n) = o.toSt ∧ s3.sets.count (k + n) = 1))) ∧
+    (deref s3 (n + 1) k = .pending ∨ deref s3 (n + 1) k = o.toSt) ∧
+    (s3.st n = .pending → deref s3 (n + 1) k = .pending) ∧
+    ((∀ i, i ≤ n → s3.st i ≠ .pending) → s3.ready = [] → deref s3 (n + 1) k = o.toSt) ∧
+    (∀ i, i ≤ n → Ev.complete i ∈ pre ++ post → s3.st i ≠ .pending) := by
+  intro d s1 k s3
+  have hpre : UPre .aio n o s1 := upre_envRun fuel pre _ (upre_init .aio n o)
+  obtain ⟨hk, hinv⟩ := mirror_wrap hpre
+  have hq2 : MQuiet n o (runStack fuel (plumToKiwi s1 0).1) := by
+    rw [runStack_nil _ _ hinv.1.stack]; exact ⟨0, hinv⟩
+  obtain ⟨m, hb, hpos⟩ : MQuiet n o s3 := mirror_envRun fuel post _ hq2
+  have hk' : k = n + 1 := hk
+  have hdone : ∀ i, i ≤ n → Ev.complete i ∈ pre ++ post → s3.st i ≠ .pending := by
+    intro i hi hmem
+    have hd : d i ≠ .pending := chainD_ne_pending hi
+    rcases List.mem_append.mp hmem with h | h
+    · have h1 : s1.st i ≠ .pending :=
+        envRun_complete_done d fuel i hd pre _ (by rw [(upre_init .aio n o).next]; omega) h
+      have hm : Mono s1 s3 :=
+        ((mono_plumToKiwi s1 0).trans (mono_runStack fuel _)).trans (mono_envRun d fuel post _)
+      exact done_of_mono hm (by rw [hpre.next]; omega) h1
+    · refine envRun_complete_done d fuel i hd post _ ?_ h
+      rw [runStack_nil _ _ hinv.1.stack, hinv.1.next]; omega
+  have hm := hb.hm
+  have hbelow : ∀ i, i < m → s3.st i = .result (.ref (i + 1)) ∧ s3.st (k + i) = .result (.ref (k + i + 1)) ∧
+      s3.sets.count (k + i) = 1 := by
+    intro i hi
+    obtain ⟨h1, h2, h3⟩ := hb.below i hi
+    rw [hk']
+    have hin : i < n := by omega
+    have e : n + 2 + i = n + 1 + i + 1 := by omega
+    refine ⟨?_, ?_, h2⟩
+    · rw [h3, chainD_lt hin]
+    · rw [h1, e]
+  have hchain : ∀ i, i < m → s3.st (k + i) = .result (.ref (k + i + 1)) := fun i hi => (hbelow i hi).2.1
+  have hderef : (∀ g, s3.st (k + m) ≠ .result (.ref g)) → deref s3 (n + 1) k = s3.st (k + m) :=
+    fun h => deref_chain s3 k m (n + 1) (by omega) hchain h
+  rw [hk'] at hderef
+  rw [hk']
+  rcases hpos with ⟨h1, h2, h3, h4, h5⟩ | ⟨h1, h2, h3, h4, h5⟩ | ⟨h1, h2, h3, h4, h5, h6⟩
+  · have hd := hderef (by rw [h4]; simp)
+    rw [h4] at hd
+    refine ⟨hb.errs, hb.fuel, ⟨m, hm, by rw [← hk']; exact hbelow, .inl ⟨h4, List.count_eq_zero.mpr h5, .inl h1⟩⟩,
+      .inl hd, fun _ => hd, fun hall _ => absurd h1 (hall m hm), hdone⟩
+  · have hd := hderef (by rw [h4]; simp)
+    rw [h4] at hd
+    refine ⟨hb.errs, hb.fuel, ⟨m, hm, by rw [← hk']; exact hbelow, .inl ⟨h4, List.count_eq_zero.mpr h5, .inr (by simp [h3])⟩⟩,
+      .inl hd, fun _ => hd, fun _ hr => by simp [h3] at hr, hdone⟩
+  · subst h1
+    have hd := hderef (by rw [h5]; exact Outcome.toSt_ne_ref o)
+    rw [h5] at hd
+    rw [chainD_last] at h2
+    refine ⟨hb.errs, hb.fuel, ⟨m, hm, by rw [← hk']; exact hbelow, .inr ⟨rfl, h2, h5, h6⟩⟩,
+      .inr hd, fun hp => by rw [h2] at hp; exact absurd hp (Outcome.toSt_ne_pending o), fun _ _ => hd, hdone⟩
 
 end Futures
